@@ -1,7 +1,8 @@
 (* C16 — run() releases its session resources at every failure point; a later run behaves as if the failed run never
    happened.  Statements only (closed by `exact`, or by evaluating a closed witness); proofs are in Proofs/EffectsP.v.
    The step language and its fault semantics are in Model/Effects.v, the skeletons of the engine code in Model/Skeleton.v
-   (`*_impl` faithful to the current code, `*_spec` what the property asks for). *)
+   (`*_impl` faithful to the CURRENT code -- the engine is compared with these on every run; `*_before_fix` the code
+   before the repair commits, kept only as the object of the regression-witness theorems at the end). *)
 From Coq Require Import List Bool Arith ZArith Lia.
 Import ListNotations.
 From VTL Require Import Model.Effects Model.Skeleton Proofs.EffectsP.
@@ -36,51 +37,76 @@ Theorem C16_history_independence : forall R runs p k G,
   behaviour k p (run_seq runs (init G)) = behaviour k p (init G).
 Proof. exact history_independence. Qed.
 
-(* --------------------------------------------------------------------- the faithful skeleton of the current code *)
-(* exact leak for ALL numbers of statements n, ALL load/release schedules (any bracketed body), ALL fault positions k,
-   in-memory and file-backed: positions 0..n-1 are the semantic analysis of the n statements, n+i is event i. *)
-Theorem C16_run_skeleton_leaks_iff : forall n fb envW envS body k G,
+(* ------------------------------------------------------------------------- the skeleton of the CURRENT code *)
+(* every acquisition of run() is inside the try whose finally releases it -- for every number of statements, every
+   load/release schedule, in-memory and file-backed, every environment setting *)
+Theorem C16_run_skeleton_bracketed : forall n fb envW envS ss nfinal save,
+  bracketed (run_impl n fb envW envS (exec_queries ss nfinal save)) = true.
+Proof. exact run_impl_bracketed. Qed.
+
+(* the schedules of execute_queries acquire only the temporary view, inside its own try/finally *)
+Theorem C16_exec_queries_bracketed : forall A ss nfinal save, wb A (exec_queries ss nfinal save) = true.
+Proof. exact wb_exec_queries. Qed.
+
+(* hence: for every script shape, every environment setting (valid or not), every fault position k (None = no injected
+   fault: real configuration / load errors are the failing Checks): nothing is left *)
+Theorem C16_run_skeleton_never_leaks : forall n fb envW envS ss nfinal save k G,
+  live (snd (exec k (run_impl n fb envW envS (exec_queries ss nfinal save)) (init G))) = [].
+Proof. exact run_impl_never_leaks. Qed.
+
+(* run() reads only globals it wrote itself in the same run, or dataset_output, which every call leaves at None *)
+Theorem C16_run_skeleton_self_initialising : forall n fb envW envS ss nfinal save,
+  si (map fst restored) (run_impl n fb envW envS (exec_queries ss nfinal save)) = true.
+Proof. exact run_impl_self_init. Qed.
+
+Theorem C16_run_skeleton_restores_dataset_output : forall n fb envW envS ss nfinal save k s,
+  inv restored s -> inv restored (snd (exec k (run_impl n fb envW envS (exec_queries ss nfinal save)) s)).
+Proof. exact run_impl_restores. Qed.
+
+(* any number of earlier calls (runs of any shape, loaders), failed at any position or by any configuration error, do
+   not change what a call does *)
+Theorem C16_run_skeleton_history_independent : forall runs p k G,
+  (forall q kq, In (q, kq) runs -> api_call q) -> api_call p -> G GDsOut = 0%Z ->
+  behaviour k p (run_seq runs (init G)) = behaviour k p (init G).
+Proof. exact history_independence_impl. Qed.
+
+(* ------------------------------------------------------- regression witnesses: the code BEFORE the repair commits *)
+(* exact leak of the old skeleton for ALL numbers of statements n, ALL schedules, ALL fault positions k: positions
+   0..n-1 are the semantic analysis of the n statements, n+i is event i.  The correspondence evaluates this skeleton
+   next to the current one: an engine that matches it again has regressed. *)
+Theorem C16_before_fix_leaks_iff : forall n fb envW envS body k G,
   valid_cfg_before_fix envW envS G = true -> wb [RConn; RDbFile; RDir] body = true ->
   live (snd (exec (Some k) (run_before_fix n fb envW envS body) (init G))) =
     if k <? n then [] else predicted_leak fb (k - n).
 Proof. exact run_before_fix_leaks. Qed.
 
-Corollary C16_run_skeleton_leaks_positions : forall n fb envW envS body k G,
+Corollary C16_before_fix_leaks_positions : forall n fb envW envS body k G,
   valid_cfg_before_fix envW envS G = true -> wb [RConn; RDbFile; RDir] body = true ->
   (live (snd (exec (Some k) (run_before_fix n fb envW envS body) (init G))) <> [] <-> n + 1 <= k <= n + 5).
 Proof. exact run_before_fix_leaks_positions. Qed.
 
-(* the schedules of execute_queries are such bodies *)
-Theorem C16_exec_queries_bracketed : forall A ss nfinal save, wb A (exec_queries ss nfinal save) = true.
-Proof. exact wb_exec_queries. Qed.
-
-(* REFUTED on the unchanged code: whatever the script, a fault at conn:connect (k = n+1) leaves the session directory,
-   a fault in configure:* / conn:set_session_temp leaves directory + open connection (+ session.duckdb if file-backed) *)
-Theorem C16_run_skeleton_bracketed_refuted : forall n fb envW envS ss nfinal save G,
+Theorem C16_before_fix_bracketed_refuted : forall n fb envW envS ss nfinal save G,
   valid_cfg_before_fix envW envS G = true ->
   live (snd (exec (Some (n + 1)) (run_before_fix n fb envW envS (exec_queries ss nfinal save)) (init G))) = [RDir] /\
   live (snd (exec (Some (n + 4)) (run_before_fix n fb envW envS (exec_queries ss nfinal save)) (init G))) = leakset fb.
 Proof. exact run_before_fix_bracketed_refuted. Qed.
 
-(* a REAL configuration error (no injected fault) leaks everything acquired before the try *)
-Theorem C16_config_error_leaks : forall fb envW envS body s,
+Theorem C16_before_fix_config_error_leaks : forall fb envW envS body s,
   live s = [] -> cnt s = 0 -> valid_cfg_before_fix envW envS (glb s) = false ->
   fst (exec None (conn_before_fix fb (decimal_before_fix envW envS) body) s) = Fail /\
   live (snd (exec None (conn_before_fix fb (decimal_before_fix envW envS) body) s)) = leakset fb.
 Proof. exact config_error_leaks. Qed.
 
-(* REFUTED: history independence of the faithful skeleton.
-   (a) VTL_DUCKDB_DECIMAL_WIDTH=3 makes a run fail; the NEXT run, with the variable unset, fails too although the same
-       run in a fresh process succeeds (the rejected value stays in the module global). *)
-Theorem C16_history_independence_refuted_decimal :
+(* (a) VTL_DUCKDB_DECIMAL_WIDTH=3 made a run fail and the NEXT run, with the variable unset, failed too *)
+Theorem C16_before_fix_history_refuted_decimal :
   let failing := (run_before_fix 1 false (Some 3%Z) None body1, None) in
   let clean := run_before_fix 1 false None None body1 in
   fst (behaviour None clean (init G0)) = Ok /\
   fst (behaviour None clean (run_seq [failing] (init G0))) = Fail.
 Proof. vm_compute. split; reflexivity. Qed.
 
-(* (a') width 45 passes the engine's own check (the upper bound is tested on the scale), fails in DuckDB, and sticks *)
-Theorem C16_history_independence_refuted_decimal_45 :
+(* (a') width 45 passed the engine's own check, failed in DuckDB, and stuck *)
+Theorem C16_before_fix_history_refuted_decimal_45 :
   let failing := (run_before_fix 1 false (Some 45%Z) None body1, None) in
   let clean := run_before_fix 1 false None None body1 in
   fst (behaviour None (fst failing) (init G0)) = Fail /\
@@ -88,42 +114,31 @@ Theorem C16_history_independence_refuted_decimal_45 :
   fst (behaviour None clean (run_seq [failing] (init G0))) = Fail.
 Proof. vm_compute. repeat split; reflexivity. Qed.
 
-(* (b) a semantic error in statement 2 leaves dataset_output set; the error message of a later, unrelated failing call
-       reads it (observation (GDsOut, 2) instead of (GDsOut, 0)) *)
-Theorem C16_history_independence_refuted_dataset_output :
+(* (b) a semantic error in statement 2 left dataset_output set; a later unrelated error message read it *)
+Theorem C16_before_fix_history_refuted_dataset_output :
   let failing := (run_before_fix 2 false None None body1, Some 1) in
   behaviour (Some 0) validate_prog (init G0) = (Fail, [(GDsOut, 0%Z)]) /\
   behaviour (Some 0) validate_prog (run_seq [failing] (init G0)) = (Fail, [(GDsOut, 2%Z)]).
 Proof. vm_compute. split; reflexivity. Qed.
 
-(* ------------------------------------------------------------------------------- the spec (repaired) skeleton *)
-Theorem C16_run_spec_bracketed : forall n fb envW envS ss nfinal save,
-  bracketed (run_impl n fb envW envS (exec_queries ss nfinal save)) = true.
-Proof. exact run_impl_bracketed. Qed.
-
-(* hence: for every script shape, every environment setting (valid or not), every fault position: nothing is left *)
-Theorem C16_run_spec_never_leaks : forall n fb envW envS ss nfinal save k G,
-  live (snd (exec k (run_impl n fb envW envS (exec_queries ss nfinal save)) (init G))) = [].
-Proof. exact run_impl_never_leaks. Qed.
-
-(* any number of earlier calls, failed at any position or by any configuration error, do not change what a call does *)
-Theorem C16_history_independence_spec : forall runs p k G,
-  (forall q kq, In (q, kq) runs -> api_call q) -> api_call p -> G GDsOut = 0%Z ->
-  behaviour k p (run_seq runs (init G)) = behaviour k p (init G).
-Proof. exact history_independence_impl. Qed.
-
 (* ------------------------------------------------------------------------------------------------- non-vacuity *)
+(* the current skeleton on the very witnesses above: rejected settings raise, leave nothing, and do not stick; a
+   semantic error does not reach a later message; the two skeletons differ exactly at the pre-try fault positions *)
 Example C16_nonvacuous :
   bracketed (run_impl 2 true None None body1) = true /\
   bracketed (run_before_fix 2 true None None body1) = false /\
-  valid_cfg_before_fix None None G0 = true /\
-  observe_run (Some 9) (run_before_fix 2 true None None body1) G0 =
+  valid_cfg None None = true /\ valid_cfg (Some 45%Z) None = false /\
+  observe_run (Some 9) (run_impl 2 true None None body1) G0 =
     (Fail, [], [LSem; LSem; LMkdir; LConnect; LSettings; LUdf; LDecimal; LSetTemp; LInitMacros; LLoad]) /\
-  observe_run (Some 5) (run_before_fix 2 true None None body1) G0 =
-    (Fail, [RDbFile; RConn; RDir], [LSem; LSem; LMkdir; LConnect; LSettings; LUdf]) /\
   observe_run (Some 5) (run_impl 2 true None None body1) G0 =
     (Fail, [], [LSem; LSem; LMkdir; LConnect; LSettings; LUdf]) /\
-  fst (fst (observe_run None (run_before_fix 2 true None None body1) G0)) = Ok.
+  observe_run (Some 5) (run_before_fix 2 true None None body1) G0 =
+    (Fail, [RDbFile; RConn; RDir], [LSem; LSem; LMkdir; LConnect; LSettings; LUdf]) /\
+  observe_run None (run_impl 1 true (Some 3%Z) None body1) G0 = (Fail, [], [LSem; LMkdir; LConnect; LSettings; LUdf; LDecimal]) /\
+  observe_run None (run_impl 1 true (Some 45%Z) None body1) G0 = (Fail, [], [LSem; LMkdir; LConnect; LSettings; LUdf; LDecimal]) /\
+  fst (behaviour None (run_impl 1 false None None body1) (run_seq [(run_impl 1 false (Some 3%Z) None body1, None)] (init G0))) = Ok /\
+  behaviour (Some 0) validate_prog (run_seq [(run_impl 2 false None None body1, Some 1)] (init G0)) = (Fail, [(GDsOut, 0%Z)]) /\
+  fst (fst (observe_run None (run_impl 2 true None None body1) G0)) = Ok.
 Proof. vm_compute. repeat split; reflexivity. Qed.
 
 Print Assumptions C16_bracketed_safe.
@@ -131,14 +146,16 @@ Print Assumptions C16_bracketed_sequences_safe.
 Print Assumptions C16_fault_raises.
 Print Assumptions C16_only_faults_fail.
 Print Assumptions C16_history_independence.
-Print Assumptions C16_run_skeleton_leaks_iff.
-Print Assumptions C16_run_skeleton_leaks_positions.
+Print Assumptions C16_run_skeleton_bracketed.
 Print Assumptions C16_exec_queries_bracketed.
-Print Assumptions C16_run_skeleton_bracketed_refuted.
-Print Assumptions C16_config_error_leaks.
-Print Assumptions C16_history_independence_refuted_decimal.
-Print Assumptions C16_history_independence_refuted_decimal_45.
-Print Assumptions C16_history_independence_refuted_dataset_output.
-Print Assumptions C16_run_spec_bracketed.
-Print Assumptions C16_run_spec_never_leaks.
-Print Assumptions C16_history_independence_spec.
+Print Assumptions C16_run_skeleton_never_leaks.
+Print Assumptions C16_run_skeleton_self_initialising.
+Print Assumptions C16_run_skeleton_restores_dataset_output.
+Print Assumptions C16_run_skeleton_history_independent.
+Print Assumptions C16_before_fix_leaks_iff.
+Print Assumptions C16_before_fix_leaks_positions.
+Print Assumptions C16_before_fix_bracketed_refuted.
+Print Assumptions C16_before_fix_config_error_leaks.
+Print Assumptions C16_before_fix_history_refuted_decimal.
+Print Assumptions C16_before_fix_history_refuted_decimal_45.
+Print Assumptions C16_before_fix_history_refuted_dataset_output.
